@@ -72,6 +72,8 @@ inline FitProblem gen_fit_problem(Chooser& ch, const FitGenOpts& fo) {
     if (o + 1 > (uint32_t)per) per = (int)o + 1;
     if (p.ndim >= 3) per = std::max<int>((int)o + 1, 2);
     for (size_t i = 0; i + 1 < k.size(); i++) for (int q = 0; q < per; q++) c.push_back(k[i] + (k[i + 1] - k[i]) * (q + 0.37 + 0.1 * (double)ch.draw(0, 2)) / (double)per);
+    // some abscissae exactly on knots (the half-open span convention matters there, most visibly for order 0)
+    if (ch.coin(1, 2)) { int nk = 1 + (int)ch.draw(0, 2); for (int q = 0; q < nk; q++) c.push_back(k[ch.draw(0, k.size() - 1)]); std::sort(c.begin(), c.end()); c.erase(std::unique(c.begin(), c.end()), c.end()); }
     if (ch.coin(1, 4)) { c.insert(c.begin(), k.front() - 1.5); c.push_back(k.back() + 0.75); }
     p.coords.push_back(c);
   }
